@@ -1,4 +1,5 @@
 import RbV.Model.Occ
+import RbV.Model.OccTable
 /-!
 # C04 — BWT, less and Occ are exact (mirror models of `bwt.rs` refine the specification)
 
@@ -28,6 +29,16 @@ theorem occ_new_loop_table (bwt : List Nat) (k c : Nat) (hk : 0 < k) :
   occNewLoop_eq bwt k c hk
 
 example : occNewLoop [1, 3, 3, 1, 2, 0] 3 1 = [1, 2] := by decide
+
+/-- **The real loop of `Occ::new`** (vector of counters, one column per symbol value, columns of the tracked
+symbols `alpha` filled) **followed by `Occ::get`** is exact for every tracked symbol, every `k ≥ 1` and every row. -/
+theorem occ_table_get_exact (bwt : List Nat) (k : Nat) (alpha : List Nat) (m a r : Nat)
+    (hk : 0 < k) (hm : a ∈ alpha) (hnd : alpha.Nodup) (ha : a < m) (hr : r < bwt.length) :
+    ((occTable bwt k alpha m)[a]?).map (fun cp => occGet cp bwt k r a) = some (occRef bwt r a) := by
+  rw [occTable_col bwt k alpha m a hm hnd ha, Option.map_some, occNewLoop_eq bwt k a hk]
+  exact congrArg some (occ_get_eq bwt k r a hk hr)
+
+example : occTable [1, 3, 3, 1, 2, 0] 3 [0, 1, 2, 3] 4 = [[0, 0], [1, 2], [0, 0], [0, 2]] := by decide
 
 /-- `Occ::get` against any checkpoint column that holds the right values (the statement of B.2) -/
 theorem occ_get_eq_table (bwt : List Nat) (k r c : Nat) (hk : 0 < k) (hr : r < bwt.length) :
